@@ -334,6 +334,12 @@ func (symbol *nonSetCompositeEntitySymbol) GetChain() []EntitySymbol {
 	return symbol.chain
 }
 
+// getChain makes this a compositeEntitySymbol, so that a longer dotted symbol which continues through this one
+// (set.fk.field) is flattened into a single chain instead of evaluating the tail on a still type-tagged key
+func (symbol *nonSetCompositeEntitySymbol) getChain() []EntitySymbol {
+	return symbol.chain
+}
+
 func (symbol *nonSetCompositeEntitySymbol) GetStore() Store {
 	return symbol.chain[0].GetStore()
 }
